@@ -5,6 +5,7 @@
 From Coq Require Import List Arith Bool Lia Permutation.
 From GolemV Require Import Graph.Heap Graph.Ops Graph.OpsSpec Graph.OpsBase Graph.OpsDfs Graph.OpsProofs
   Graph.OpsProofs2 Graph.OpsChar Graph.OpsAcyclic Evo.Mutations Evo.MutationsProofs.
+From GolemV Require Graph.OpsSink.
 Import ListNotations.
 
 (* ------------------------------------------------------------------ a single sink reaches every member *)
@@ -209,3 +210,94 @@ Qed.
 Lemma same_counts_iff : forall h g h' g',
   same_counts h g h' g' = true <-> length g' = length g /\ length (edges h' g') = length (edges h g).
 Proof. intros. unfold same_counts. rewrite andb_true_iff, !Nat.eqb_eq. tauto. Qed.
+
+(* ------------------------------------------------------------------ reduce_mutation never empties the graph *)
+(* every member lies below some sink (a member without children) *)
+Lemma root_above : forall h g, heap_ok h -> (forall x, In x g -> x < length h) -> acyclic h g ->
+  forall k x, In x g -> length (filter (fun y => reaches_b h y x) g) < k ->
+  exists r, In r (root_nodes h g) /\ reach h r x.
+Proof.
+  intros h g HK V AC. induction k as [|k IH]; intros x Hx L; [lia|].
+  destruct (node_children h g x) as [|c cs] eqn:EC.
+  - exists x. split; [|constructor]. unfold root_nodes. apply filter_In. split; [exact Hx|]. rewrite EC. reflexivity.
+  - assert (Hc : In c (node_children h g x)) by (rewrite EC; left; reflexivity).
+    apply node_children_In in Hc. destruct Hc as [Hcg Hxc].
+    assert (NR : ~ reach h x c).
+    { intros R. apply (AC c Hcg c (reach_refl _ _)). exists x. split; assumption. }
+    assert (LT : length (filter (fun y => reaches_b h y c) g) < length (filter (fun y => reaches_b h y x) g)).
+    { apply filter_length_lt.
+      - intros y Hy Ry. apply reaches_b_iff; [exact HK|apply V; exact Hy|].
+        apply (reaches_b_iff h y c HK (V y Hy)) in Ry. eapply reach_step_r; eauto.
+      - exists x. split; [exact Hx|]. split.
+        + destruct (reaches_b h x c) eqn:B; [|reflexivity].
+          apply (reaches_b_iff h x c HK (V x Hx)) in B. tauto.
+        + apply reaches_b_iff; [exact HK|apply V; exact Hx|constructor]. }
+    destruct (IH c Hcg) as [r [Hr Rr]]; [lia|].
+    exists r. split; [exact Hr|]. eapply reach_step_r; eauto.
+Qed.
+
+(* a sink other than v is no ancestor of v *)
+Lemma root_not_above : forall h g v r, WF h g -> In v g -> In r (root_nodes h g) -> r <> v -> ~ reach h v r.
+Proof.
+  intros h g v r W Hv Hr N R.
+  unfold root_nodes in Hr. apply filter_In in Hr. destruct Hr as [Hrg Hnull].
+  assert (X : forall a b, reach h a b -> In a g -> a <> b -> exists x, In x g /\ In b (pars h x)).
+  { intros a b Rab. unfold reach in Rab. induction Rab as [a|a p b Hp Hr' IH]; intros Ha Nab; [congruence|].
+    assert (Hpg : In p g) by (eapply (wf_closed _ _ W); eauto).
+    destruct (Nat.eq_dec p b) as [->|Npb]; [exists a; auto|apply IH; assumption]. }
+  destruct (X v r R Hv (fun E => N (eq_sym E))) as [x [Hx Hp]].
+  assert (Y : In x (node_children h g r)) by (apply node_children_In; auto).
+  destruct (node_children h g r); [destruct Y|discriminate].
+Qed.
+
+(* the result of reduce_mutation is never empty: a sink other than the removed node survives
+   delete_subtree, update_subtree puts a new node in *)
+Theorem reduce_nonempty : forall min_arity tries h g h' g', WF h g -> acyclic h g -> g <> [] ->
+  (forall v onn, In (v, onn) tries -> In v g) ->
+  reduce min_arity tries (h, g) = Ok (h', g') -> g' <> [].
+Proof.
+  intros ma tries h g h' g' W AC N H E. unfold reduce in E. cbn [snd] in E.
+  destruct (length g =? 1); [inversion E; subst; exact N|].
+  induction tries as [|[v onn] t IH]; simpl in E; [inversion E; subst; exact N|].
+  assert (Hv : In v g) by (eapply H; left; reflexivity).
+  assert (Ht : forall v' o', In (v', o') t -> In v' g) by (intros; eapply H; right; eauto).
+  destruct (is_excluded h g v) eqn:EX; [apply IH; assumption|].
+  destruct (deletable ma h g v).
+  - (* delete_subtree(v): some sink differs from v *)
+    destruct (delete_subtree_char h g v h' g' W Hv E) as [_ [_ [M _]]].
+    destruct (root_above h g (wf_heap _ _ W) (wf_valid _ _ W) AC _ v Hv (Nat.lt_succ_diag_r _)) as [r0 [Hr0 _]].
+    assert (X : exists r, In r (root_nodes h g) /\ r <> v).
+    { unfold is_excluded in EX. destruct (root_nodes h g) as [|a [|b rs]] eqn:ER.
+      - destruct Hr0.
+      - apply Nat.eqb_neq in EX. exists a. split; [left; reflexivity|auto].
+      - assert (ND : NoDup (a :: b :: rs)).
+        { rewrite <- ER. unfold root_nodes. apply NoDup_filter. apply (wf_nodup _ _ W). }
+        inversion ND as [|? ? Na _]; subst.
+        destruct (Nat.eq_dec a v) as [->|Nav].
+        + exists b. split; [right; left; reflexivity|]. intros ->. apply Na. left. reflexivity.
+        + exists a. split; [left; reflexivity|exact Nav]. }
+    destruct X as [r [Hr Nr]].
+    assert (Hrg : In r g) by (unfold root_nodes in Hr; apply filter_In in Hr; tauto).
+    intros ->. apply (M r). split; [exact Hrg|]. apply (root_not_above h g v r W Hv Hr Nr).
+  - destruct onn as [nn|]; [|apply IH; assumption].
+    (* update_subtree(v, primary node): the copy of the new node is a member *)
+    set (h1 := h ++ [fresh_node nn]) in *.
+    assert (W1 : WF h1 g) by (apply (alloc1_WF h g nn W)).
+    assert (A1 : acyclic h1 g) by (apply acyclic_app; assumption).
+    assert (G : guard_b (h1, g) (OUpdSub v (length h)) = true).
+    { pose proof (leaf_tree_ok h nn) as T. unfold tree_ok, alloc_tree in T. cbn [fst snd map] in T.
+      rewrite shift_fresh, Nat.add_0_r in T. rewrite !andb_true_iff in T. destruct T as [_ T3].
+      unfold guard_b. cbn [fst snd].
+      apply andb_true_iff; split; [apply andb_true_iff; split; [apply andb_true_iff; split|]|].
+      - apply memb_In. exact Hv.
+      - apply Nat.ltb_lt. apply (alloc1_valid h nn).
+      - eapply hierarchy_member_ok; eauto.
+      - exact T3. }
+    destruct (update_subtree_facts_exact h1 g v (length h) W1 G)
+      as [h4 [g3 [Bs [E' [W' [_ [_ [_ [_ [_ [_ [R [g2 [_ [_ [_ [_ [W2 [ES M2]]]]]]]]]]]]]]]]]]].
+    rewrite E in E'. inversion E'; subst h4 g3.
+    intros ->.
+    assert (In (rename R (length h1) (length h)) g2) by (apply M2; right; constructor).
+    pose proof (OpsSink.sort_nodes_same_set h' g2 [] (wf_heap _ _ W2) (wf_valid _ _ W2) (wf_closed _ _ W2) ES
+                  (rename R (length h1) (length h))) as X. apply X in H0. destruct H0.
+Qed.
